@@ -230,7 +230,8 @@ class Desugarer:
         if not has_impure_call(comp.elt, self.spec_names):
             return comp
         gen = comp.generators[0]
-        acc = self.tmp()
+        lid = getattr(comp, "_loop_id", None) or f"compX{self.ncomp}"
+        acc = f"_acc_{lid}"        # stable name: sidecar invariants refer to the accumulator of comprehension <lid>
         pre.append(self._assign(acc, ast.List(elts=[], ctx=ast.Load()), comp))
         body = []
         v = self.hoist(comp.elt, body)
@@ -241,7 +242,7 @@ class Desugarer:
         body.append(app)
         loop = ast.For(target=gen.target, iter=self.hoist(gen.iter, pre), body=body, orelse=[])
         ast.copy_location(loop, comp)
-        loop._loop_id = getattr(comp, "_loop_id", None) or f"compX{self.ncomp}"
+        loop._loop_id = lid
         loop._acc = acc
         self.ncomp += 1
         pre.append(loop)
